@@ -3,7 +3,7 @@
 # checks that it builds and keeps the baseline green, and lists every check that is not silent on it.
 A=$1
 export GOFLAGS=-mod=mod GOPROXY=off GOSUMDB=off GOTOOLCHAIN=local; unset GOWORK
-for pf in /tmp/refwt/$A/REF_OUT/*.patch.diff; do
+for pf in ${REFROOT:-/tmp/refwt}/$A/REF_OUT/*.patch.diff; do
   X=$(basename $pf .patch.diff); W=/tmp/refeval/$A-$X; rm -rf $W; mkdir -p $W; rsync -a --exclude .git --exclude REF_OUT /repo/ $W/
   echo "######## $A $X: $(grep '^+++ ' $pf | sed 's#+++ b/##' | tr '\n' ' ')"
   (cd $W && git apply --whitespace=nowarn $pf) || { echo "PATCH DOES NOT APPLY"; continue; }
